@@ -35,6 +35,7 @@ def run(run):
     hc.solve_scenarios(run, 'C14', tasks(run), 'rt-solve-dimension-reduction',
                        'seeded DSL programs solved without and with the heuristic (trace, logdet1-3, two tolerances): same dual bound, same multipliers, certificate '
                        'valid for the bound, primal objective >= optimum - tolerance, all sent constraints hold at the returned instance, trace not increased')
+    run.assume('PEP.solve: importlib.util.find_spec and str.lower are uninterpreted functions (package_found, str_lower); the wrapper table WRAPPERS has the keys cvxpy and mosek (precondition known_backend)')
     run.assume('solver numerics (tolerances as stated); a SolverError of the numerical solver on an ill-conditioned heuristic problem is inconclusive')
 
 
